@@ -2,6 +2,7 @@ package colsim
 
 import (
 	"fmt"
+	"os"
 	"sync"
 	"testing"
 	"testing/synctest"
@@ -111,5 +112,94 @@ func runStalled(cs *Case) (w *World) {
 		finish()
 		w.stats.SimTimeNs = int64(time.Since(start))
 	})
+	return w
+}
+
+// File log (C06): the change stream of a single-client history goes into a commit log
+// opened with commit.OpenFile on a real file of the run's private TMPDIR; afterwards the
+// file is opened a second time, ranged over, and what it delivers is replayed on a fresh
+// replica, which must equal the model. The second half of the history is logged through
+// a log object opened anew on the same file after the first one was dropped (a process
+// that restarts and goes on logging must first read the file to its end, which is what
+// positions it for appending).
+func genFileLog(prop string, seed uint64, run int) *Case {
+	p := seqProfile{minSteps: 3, maxSteps: 12, wTxn: 20, wInsert: 8, wAt: 8, wRange: 2, wDelete: 3,
+		pAbort: 0.1, pMerge: 0.3, maxCols: 5, multiBlock: 0.4}
+	cs := genSeq(prop, seed, run, p, knownAvoid(prop, seed, run))
+	cs.World = "filelog"
+	return cs
+}
+
+func runFileLog(cs *Case) (w *World) {
+	path := fmt.Sprintf("%s/colsim-log-%d-%d.log", os.TempDir(), cs.Seed, cs.Run)
+	os.Remove(path)
+	defer os.Remove(path)
+	var lg *commit.Log
+	var file interface{ Close() error }
+	open := func(w *World, catchUp bool) bool {
+		l, err := commit.OpenFile(path)
+		if err != nil {
+			w.fail(violation("filelog/open", "OpenFile: %v", err))
+			return false
+		}
+		if catchUp {
+			// read to the end: the file position is then where the next commit belongs
+			if err := l.Range(func(commit.Commit) error { return nil }); err != nil {
+				w.fail(violation("filelog/range-error", "Range over the log file before appending to it again returned %v", err))
+				return false
+			}
+		}
+		lg = l
+		return true
+	}
+	_ = file
+	half := len(cs.Steps) / 2
+	step := 0
+	w = runSeq(cs, seqOracles{dump: true,
+		start: func(w *World) {
+			if !open(w, false) {
+				return
+			}
+			w.tap.Sinks = append(w.tap.Sinks, loggerFunc(func(c commit.Commit) error {
+				if err := lg.Append(c); err != nil {
+					w.fail(violation("filelog/append-error", "Append to the log file returned %v", err))
+				}
+				return nil
+			}))
+		},
+		each: func(w *World) {
+			step++
+			if step == half && half > 0 && w.viol == nil {
+				lg.Close()
+				if open(w, true) {
+					w.stats.probe("log-file-reopened-and-appended-to")
+				}
+			}
+		},
+		final: func(w *World) {
+			lg.Close()
+			rd, err := commit.OpenFile(path)
+			if err != nil {
+				w.fail(violation("filelog/open", "OpenFile for reading: %v", err))
+				return
+			}
+			defer rd.Close()
+			replica := w.newCollection(nil)
+			w.prefill(replica, cs.Cfg.Prefill)
+			n := 0
+			if err := rd.Range(func(c commit.Commit) error { n++; return replica.Replay(c) }); err != nil {
+				w.fail(violation("filelog/range-error", "Range over the log file returned %v after %d commits", err, n))
+				return
+			}
+			if n != len(w.tap.Commits) {
+				w.fail(violation("filelog/commit-count", "%d commits were appended to the log file, Range over it delivers %d", len(w.tap.Commits), n))
+				return
+			}
+			if v := CompareDump(replica, w.model, cs.Cfg.KeyAlpha, nil); v != nil {
+				v.Sig = "filelog/" + v.Sig
+				v.Detail = "replica fed from the log file: " + v.Detail
+				w.fail(v)
+			}
+		}})
 	return w
 }
